@@ -1057,7 +1057,7 @@ def rule_pass_through(ctx, rep: Report, rid="N3"):
                     f"{mi.rel}:{c.lineno}")
 
 
-def _spelling_shape(prog, ci, fn) -> Tuple[bool, str]:
+def _spelling_shape(prog, ci, fn, recv: str = "self") -> Tuple[bool, str]:
     """Some text built in fn has the skeleton `<name><<args>>` where <name> is self.original.name (directly or through
     a local holding it) and <args> is a join over self.instantiations."""
     from .emit import Folder
@@ -1085,15 +1085,15 @@ def _spelling_shape(prog, ci, fn) -> Tuple[bool, str]:
             continue
         s0, s1 = t.slots()
         name_vals = [v for v in values(s0.expr) if not (isinstance(v, (ast.JoinedStr, ast.Call)) and v is c)]
-        name_ok = bool(name_vals) and all(unparse(v) == "self.original.name" or v is c or
+        name_ok = bool(name_vals) and all(unparse(v) == f"{recv}.original.name" or v is c or
                                           (isinstance(v, ast.JoinedStr) and fo.fold(v) is not None and fo.fold(v).literal("§") == "§<§>")
-                                          for v in values(s0.expr)) and any(unparse(v) == "self.original.name" for v in values(s0.expr))
+                                          for v in values(s0.expr)) and any(unparse(v) == f"{recv}.original.name" for v in values(s0.expr))
         args_ok = False
         for v in values(s1.expr):
             if isinstance(v, ast.Call) and isinstance(v.func, ast.Attribute) and v.func.attr == "join" and v.args:
                 for a in values(v.args[0]):
                     gens = [g for x in ast.walk(a) if isinstance(x, (ast.ListComp, ast.GeneratorExp)) for g in x.generators]
-                    if gens and all(unparse(g.iter) == "self.instantiations" and not g.ifs for g in gens):
+                    if gens and all(unparse(g.iter) == f"{recv}.instantiations" and not g.ifs for g in gens):
                         args_ok = True
         if name_ok and args_ok:
             return True, "skeleton §<§> with self.original.name and a join over self.instantiations"
@@ -1129,7 +1129,14 @@ def rule_naming(ctx, rep: Report, rid="N4", min_sites=5):
         ci = prog.cls(cls)
         fn = prog.method(cls, meth)
         n += 1
-        ok, detail = _spelling_shape(prog, ci, fn)
+        recv = "self"
+        st_ = [x for x in fn.body if not (isinstance(x, ast.Expr) and isinstance(x.value, ast.Constant))]
+        if len(st_) == 1 and isinstance(st_[0], ast.Return) and isinstance(st_[0].value, ast.Call) and isinstance(st_[0].value.func, ast.Name) \
+                and st_[0].value.func.id in ci.mod.functions and [unparse(a_) for a_ in st_[0].value.args] == ["self"]:
+            # the spelling is shared with a sibling class through a module-level helper that is given the object
+            fn = ci.mod.functions[st_[0].value.func.id]
+            recv = fn.args.args[0].arg
+        ok, detail = _spelling_shape(prog, ci, fn, recv)
         rep.add(rid, f"spelling:{cls}.{meth}:Name<args> from the template's own name and the instantiation list", ok,
                 detail, f"{ci.mod.rel}:{fn.lineno}")
     if n < min_sites:
